@@ -9,10 +9,11 @@ Python-supported Specs inputs, generated entity expressions (alone / in carriers
 noise; the predicate is evaluated in Python and by the Lean definition.  Shares lib/spancorr.py with C01."""
 from lib import spancorr
 from lib import dtextractcorr
+from lib import dtextract2corr
 
 PROP = 'C12'
 LEVEL = 'proof'
-PROPS_MODULES = ['RTV.Props.C12', 'RTV.Props.C01DtExtract']
+PROPS_MODULES = ['RTV.Props.C12', 'RTV.Props.C01DtExtract', 'RTV.Props.C01DtExtract2']
 GEN = ['chartables', 'preprocess']
 REQUIRED_THEOREMS = ['runs_disjoint', 'sweep_disjoint', 'sweep_disjoint_ip', 'sweep_disjoint_number',
                      'sweep_disjoint_number_noNeg', 'sweep_number_neg_counterexample', 'sweep_disjoint_percent',
@@ -22,7 +23,9 @@ REQUIRED_THEOREMS = ['runs_disjoint', 'sweep_disjoint', 'sweep_disjoint_ip', 'sw
                      # RTV.Props.C01DtExtract: sub-extractor tokens inside the text -> disjoint results
                      'subextractor_results_ok', 'rangePairTok_inside', 'rangeLoop_mem', 'range_from_leading_blank',
                      'tagInequality_inside', 'mergeMultipleDuration_inside', 'rangePairTok_fixed_starts_at_word',
-                     'rangePairTok_fixed_clear_of_previous']
+                     'rangePairTok_fixed_clear_of_previous',
+                     # RTV.Props.C01DtExtract2
+                     'extractor_results_ok', 'prefixDayOne_start', 'prefixDay_leading_blank_witness', 'dtpDateWithSuffix_inside', 'tpMergeTwoTimePoints_mem']
 RULE = ('pipeline: every Python-supported Specs input through its own (model, culture) pair (thorough: through every '
         'registered pair of its recogniser) + per registered pair generated queries (entity texts of the Specs and '
         'universal literals, English templates; alone / carrier / several / blank-led / adjacent / with '
@@ -47,3 +50,4 @@ def correspond(ctx):
     tasks = spancorr.pipeline(ctx, PROP)
     spancorr.unit_level(ctx, PROP, tasks)
     dtextractcorr.run_light(ctx, PROP)
+    dtextract2corr.run_light(ctx, PROP)
